@@ -98,7 +98,7 @@ def h_rel_tsmap(ctx, n):
     A, B = TimestampMapper(), TimestampMapper()
     cur = 0
     for i in range(n):
-        cur = cur + (ctx.int("step%d" % i, 0, 1 << 20) if i else 0)
+        cur = cur + (ctx.int("step%d" % i, 0, (1 << 31) - 1) if i else 0)  # any forward jump below half the space
         ra = A.map((ta + cur) & U32)
         rb = B.map((tb + cur) & U32)
         ctx.check(sx.eq(ra, rb), "timestamp-mapper-origin-independent")
